@@ -3159,8 +3159,9 @@ namespace awkward {
               I exitdepth = bytecode_get();
               bytecodes_pointer_where()++;
               recursion_current_depth_ -= exitdepth;
+              // drop the 'do' loops that belong to the word being left (and only those)
               while (do_current_depth_ != 0  &&
-                     do_abs_recursion_depth() != recursion_current_depth_) {
+                     do_abs_recursion_depth() >= recursion_current_depth_) {
                 do_current_depth_--;
               }
 
